@@ -862,6 +862,62 @@ Section Sim2.
       cbn [fst snd mon_ops] in *. rewrite A, (R_quiescent _ _ R1). exists m2. auto.
   Qed.
 
+  (** ---------- the socket layer: deliveries deferred while reading is paused are steps of the same channel ---------- *)
+  Lemma settle_sim k t1 evs pc m m1 k' evs' :
+    mon_run m evs = Some m1 -> R [] (t_st t1) m1 ->
+    settle eager sync reqs tmo abt k t1 evs pc = (k', evs') ->
+    exists m', mon_run m evs' = Some m' /\ R [] (t_st (k_t k')) m'.
+  Proof.
+    intros A HR. unfold settle.
+    destruct (negb (net_paused (k_paused k) evs) && (0 <? k_queued k)%N).
+    - destruct (tstep eager sync reqs tmo abt t1 (Op (Data (k_queued k)))) as [t2 e2] eqn:E2.
+      destruct (tstep_sim _ _ _ _ _ HR E2) as (m2 & A2 & R2).
+      destruct (negb (net_paused (net_paused (k_paused k) evs) e2) && pc && negb (s_lost (t_st t2))).
+      + destruct (tstep eager sync reqs tmo abt t2 (Op Lose)) as [t3 e3] eqn:E3.
+        destruct (tstep_sim _ _ _ _ _ R2 E3) as (m3 & A3 & R3).
+        intro E; inversion E; subst; clear E. cbn [k_t]. exists m3. split; [|exact R3].
+        rewrite !mon_run_app, A, A2. exact A3.
+      + intro E; inversion E; subst; clear E. cbn [k_t]. exists m2. split; [|exact R2].
+        rewrite !mon_run_app, A, A2. reflexivity.
+    - destruct (negb (net_paused (k_paused k) evs) && pc && negb (s_lost (t_st t1))).
+      + destruct (tstep eager sync reqs tmo abt t1 (Op Lose)) as [t3 e3] eqn:E3.
+        destruct (tstep_sim _ _ _ _ _ HR E3) as (m3 & A3 & R3).
+        intro E; inversion E; subst; clear E. cbn [k_t]. exists m3. split; [|exact R3].
+        rewrite !mon_run_app, A. exact A3.
+      + intro E; inversion E; subst; clear E. cbn [k_t]. exists m1. split; [|exact HR].
+        rewrite !mon_run_app, A. reflexivity.
+  Qed.
+
+  Lemma sstep_sim k m o k' evs :
+    R [] (t_st (k_t k)) m -> sstep eager sync reqs tmo abt k o = (k', evs) ->
+    exists m', mon_run m evs = Some m' /\ R [] (t_st (k_t k')) m'.
+  Proof.
+    intros HR.
+    assert (Hgen : forall o', (let (t1, e1) := tstep eager sync reqs tmo abt (k_t k) o' in
+                               settle eager sync reqs tmo abt k t1 e1 (match o' with Op Lose => true | _ => k_peerclosed k end)) = (k', evs) ->
+                              exists m', mon_run m evs = Some m' /\ R [] (t_st (k_t k')) m').
+    { intros o'. destruct (tstep eager sync reqs tmo abt (k_t k) o') as [t1 e1] eqn:Es.
+      destruct (tstep_sim _ _ _ _ _ HR Es) as (m1 & A1 & R1). intro E. eapply settle_sim; eauto. }
+    assert (Hsame : forall kk, t_st (k_t kk) = t_st (k_t k) -> (kk, @nil ev) = (k', evs) ->
+                               exists m', mon_run m evs = Some m' /\ R [] (t_st (k_t k')) m').
+    { intros kk Hk E; inversion E; subst. exists m. split; [reflexivity|]. rewrite Hk. exact HR. }
+    unfold sstep. destruct o as [o|dt]; [destruct o|]; try (exact (Hgen _)).
+    - destruct (k_paused k); [|exact (Hgen (Op (Data n)))].
+      destruct (s_lost (t_st (k_t k)) || s_closing (t_st (k_t k))); apply Hsame; reflexivity.
+    - destruct (k_paused k); [|exact (Hgen (Op Lose))]. apply Hsame; reflexivity.
+  Qed.
+
+  Theorem srun_sim ops : forall k m, R [] (t_st (k_t k)) m ->
+    exists m', mon_ops m (snd (srun eager sync reqs tmo abt k ops)) = Some m' /\
+               R [] (t_st (k_t (fst (srun eager sync reqs tmo abt k ops)))) m'.
+  Proof.
+    induction ops as [|o ops IH]; intros k m HR; cbn [srun].
+    - exists m. split; [reflexivity|exact HR].
+    - destruct (sstep eager sync reqs tmo abt k o) as [k1 e] eqn:Es. destruct (srun eager sync reqs tmo abt k1 ops) as [k2 es] eqn:Er.
+      destruct (sstep_sim _ _ _ _ _ HR Es) as (m1 & A & R1). destruct (IH k1 m1 R1) as (m2 & B & R2). rewrite Er in B, R2.
+      cbn [fst snd mon_ops] in *. rewrite A, (R_quiescent _ _ R1). exists m2. auto.
+  Qed.
+
   Theorem run_sim ops : forall s m, R [] s m ->
     exists m', mon_ops m (snd (run eager sync reqs s ops)) = Some m' /\ R [] (fst (run eager sync reqs s ops)) m'.
   Proof.
